@@ -991,7 +991,7 @@ def edge_records():
 # correspondence file (model vs implementation, spec vs implementation) evaluated by coqc
 
 K_HEADER = ("Require Import V.Base.Prelude V.Kfl.Num V.Kfl.Json V.Kfl.KflAst V.Kfl.JPath V.Kfl.KflOps V.Kfl.KflEval "
-            "V.Kfl.KflTie V.Kfl.KflSem V.Kfl.KflLimit.\nLocal Open Scope Z_scope.\n")
+            "V.Kfl.KflTie V.Kfl.KflSem V.Kfl.KflLimit V.Kfl.KflWf.\nLocal Open Scope Z_scope.\n")
 
 
 def k_check(ctx, name, items, chk_def, chunk=250, timeout=600):
@@ -1037,7 +1037,8 @@ def k_map(ctx, name, defs, fn, items, chunk=100, timeout=900, workers=8):
 
 # code of one case: bit 0 model <> implementation, bit 1 Coq specification (where it defines a truth value) <>
 # implementation, bit 2 limit of the model <> Propagate.Limit, bit 3 C12_limit instance fails, bit 4 the Coq
-# specification defines a truth value
+# specification defines a truth value, bit 5 the tree violates shape_expr (hypothesis of C13), bit 6 it violates prepared_expr
+# (hypothesis of C14)
 CHK = """
 Definition case_t := (tables * expr * jv * option bool * N)%type.
 Definition code (c : case_t) : nat :=
@@ -1050,7 +1051,8 @@ Definition code (c : case_t) : nat :=
    end) +
   (if N.eqb (limit_model t e) lim || negb (limit_defined t e) then 0 else 4) +
   (if N.eqb (limit_model t e) (limit_spec t e) then 0 else 8) +
-  (match sem (t_float t) (t_re t) (t_time t) (t_b64 t) (t_json t) (t_xml t) e r with Some _ => 16 | None => 0 end).
+  (match sem (t_float t) (t_re t) (t_time t) (t_b64 t) (t_json t) (t_xml t) e r with Some _ => 16 | None => 0 end) +
+  (if shape_expr e then 0 else 32) + (if prepared_expr e then 0 else 64).
 """
 
 
